@@ -9,6 +9,100 @@ def dflt(v: int, b: bytes, nn: bool) -> str:
     return H.h_defaults(SPEC, CLS, globals(), KEY, v, b, nn)
 '''
 
+NESTED = '''%(prelude)s
+
+
+class Pt(Packet):
+    __bisturi__ = {%(opts)s}
+    x = Int(1)
+    y = Int(1)
+
+
+class Path(Packet):
+    __bisturi__ = {%(opts)s}
+    count = Int(1, default=2)
+    points = Ref(Pt).repeated(count, default=[Pt(x=1, y=2), Pt(x=3, y=4)])
+
+
+class Seg(Packet):
+    __bisturi__ = {%(opts)s}
+    begin = Ref(Pt(x=1, y=2))
+    end = Ref(Pt(x=3, y=4))
+
+
+class Shape(Packet):
+    __bisturi__ = {%(opts)s}
+    kind = Int(1)
+    outline = Ref(lambda **k: Seg(), default=Seg(end=Pt(x=9, y=8)))
+    tags = Ref(Seg).repeated(1, default=[Seg(begin=Pt(x=5, y=6))])
+
+
+def _path(p):
+    return (p.count, [(q.x, q.y) for q in p.points], p.pack())
+
+
+def _seg(s):
+    return ((s.begin.x, s.begin.y), (s.end.x, s.end.y))
+
+
+def _shape(p):
+    return (p.kind, _seg(p.outline), [_seg(t) for t in p.tags], p.pack())
+
+
+PATH0 = (2, [(1, 2), (3, 4)], b"\\x02\\x01\\x02\\x03\\x04")
+SEG0 = ((1, 2), (3, 4))
+SHAPE0 = (0, ((1, 2), (9, 8)), [((5, 6), (3, 4))], b"\\x00\\x01\\x02\\x09\\x08\\x05\\x06\\x03\\x04")
+
+
+def nested(v: int, w: int, raw: bytes) -> str:
+    """defaults that CONTAIN packets (a given list of packets, a given packet holding packets): whatever an earlier packet
+    of the class did to the content of its own copy - in place - a packet constructed later holds the declared default"""
+    assume(0 <= v <= 255 and 0 <= w <= 255)
+    raw = fix(raw, 5)
+    first = Path()
+    if _path(first) != PATH0:
+        return "FAIL sig=C19|nested-default-differs|Path|first got=%%r" %% (_path(first),)
+    first.points[0].x = v
+    first.points[1].y = w
+    first.points.append(Pt(x=w))
+    first.count = 3
+    parsed = Path.unpack(raw, silent=True)
+    if parsed is not None and len(parsed.points) > 0:
+        parsed.points[0].y = v
+    second = Path()
+    if _path(second) != PATH0:
+        return "FAIL sig=C19|nested-default-differs|Path|after-in-place-change got=%%r" %% (_path(second),)
+    if any(a is b for a in first.points for b in second.points):
+        return "FAIL sig=C19|default-content-shared|Path.points"
+    s1 = Seg()
+    s1.begin.x = v
+    s1.end.y = w
+    s2 = Seg()
+    if _seg(s2) != SEG0:
+        return "FAIL sig=C19|nested-default-differs|Seg|after-in-place-change got=%%r" %% (_seg(s2),)
+    a = Shape()
+    if _shape(a) != SHAPE0:
+        return "FAIL sig=C19|nested-default-differs|Shape|first got=%%r" %% (_shape(a),)
+    a.outline.end.x = v
+    a.outline.begin.y = w
+    a.tags[0].begin.x = v
+    a.tags[0].end.y = w
+    b = Shape()
+    if _shape(b) != SHAPE0:
+        return "FAIL sig=C19|nested-default-differs|Shape|after-in-place-change got=%%r" %% (_shape(b),)
+    if a.outline is b.outline or a.outline.end is b.outline.end or a.tags[0] is b.tags[0] or a.tags[0].begin is b.tags[0].begin:
+        return "FAIL sig=C19|default-content-shared|Shape"
+    # keywords override exactly the named field, the other keeps its nested default
+    c = Path(count=v)
+    if (c.count, [(q.x, q.y) for q in c.points]) != (v, PATH0[1]):
+        return "FAIL sig=C19|field-value|Path|given=count got=%%r" %% ((c.count, [(q.x, q.y) for q in c.points]),)
+    d = Shape(kind=v)
+    if (d.kind, _seg(d.outline), [_seg(t) for t in d.tags]) != (v,) + SHAPE0[1:3]:
+        return "FAIL sig=C19|field-value|Shape|given=kind"
+    return "ok:accepted"
+'''
+
+
 def build(tier, seed):
     entries = [e for e in select(tier) if "P" not in e["tags"] and "refsel" not in e["tags"]] + select(tier, families=("U",))
     if tier == "quick":
@@ -24,5 +118,17 @@ def build(tier, seed):
                                       "size / b'' / fresh copy of the prototype / given or empty list / None or given); pack() == encoding "
                                       "of those values (or both reject)"})
             obs.append(base)
-    return {"obligations": obs, "bounds": {"declarations": [e["key"] for e in entries]},
+    from vlib import spec as S
+    for gen, opts in (("generic", "'generate_for_pack': False, 'generate_for_unpack': False"), ("generated", "")):
+        obs.append({"id": "C19/nested-defaults/%s" % gen, "module": "c19_nested_%s" % gen, "source": NESTED % dict(prelude=S.PRELUDE, opts=opts),
+                    "fn": "nested", "required_tags": ["accepted"], "timeout": 240,
+                    "bound": "Path(points: list of 2 given packets), Seg(two prototype instances), Shape(callable Ref with a given packet "
+                             "holding packets; list of given packets holding packets); in-place changes with symbolic byte values, a "
+                             "parse of 5 symbolic bytes in between",
+                    "assertion": "a packet constructed after in-place changes of an earlier packet's default content holds the declared "
+                                 "default (values and pack()); no nested object is shared; a keyword overrides only the field it names",
+                    "decl_text": "Path(count=Int(1, default=2); points=Ref(Pt).repeated(count, default=[Pt(x=1,y=2), Pt(x=3,y=4)])); "
+                                 "Seg(begin=Ref(Pt(x=1,y=2)); end=Ref(Pt(x=3,y=4))); Shape(kind; outline=Ref(lambda: Seg(), "
+                                 "default=Seg(end=Pt(x=9,y=8))); tags=Ref(Seg).repeated(1, default=[Seg(begin=Pt(x=5,y=6))]))"})
+    return {"obligations": obs, "bounds": {"declarations": [e["key"] for e in entries] + ["nested-defaults"]},
             "outside": ["run-time selected references (their default is whatever the user passes)"], "assumptions": []}
